@@ -41,8 +41,8 @@ CLAIMED = {
     "C04": ("olc", "exploration",
             "The C03 executions extended with scans and explicit quiescent-state placement, built with ASan; "
             "readers keep every value view they were given and re-read it before their next quiescent state; "
-            "allocate/free notifications decide exactly-once reclamation (live bytes == reported memory use after "
-            "the drain, destruction empties the live set); a single-threaded sweep touches every node afterwards.",
+            "allocate/free notifications decide exactly-once reclamation (ASan traps a double free; destruction "
+            "after the drain must empty the set of live tree blocks); a single-threaded sweep touches every node afterwards.",
             "ASan detects accesses to freed blocks only while they sit in its quarantine (default 256 MB: far "
             "more than one execution frees); same scheduler assumptions as C03.",
             "schedule enumeration + sanitizer + held-view re-reads + allocator accounting", "5 C04"),
